@@ -15,7 +15,7 @@ RULE = (
     "cases = (shape, class per node from {Node, AnyNode, user NodeMixin class, SymlinkNode} or {slotted, dict-carrying LightNodeMixin classes}, "
     "symlink targets (an earlier node of the same tree, a node of a second tree, or another link), JSON-like attribute values, entry node, "
     "method in {pickle protocol 0..5, copy.deepcopy}). Enumerated: every shape <= 5 (quick) / <= 6 (thorough) nodes x every entry node x every "
-    "method x 5 class schemes; generated: trees <= 30 nodes with random class mixes, targets and attributes. Non-trivial = >= 4 nodes and "
+    "method x 6 class schemes; generated: trees <= 30 nodes with random class mixes, targets and attributes. Non-trivial = >= 4 nodes and "
     "(entry is not the root or the tree contains a symlink). Enumerated distinct by construction; generated hashed."
 )
 ASSUMPTIONS = [
@@ -24,7 +24,7 @@ ASSUMPTIONS = [
     "attribute values are compared with ==; class identity with 'type(copy) is type(original)'",
 ]
 BOOK = ("_NodeMixin__parent", "_NodeMixin__children")
-NM_MIX = ["Node", "AnyNode", "PlainNM", "SymlinkNode"]
+NM_MIX = ["Node", "AnyNode", "PlainNM", "SymlinkNode", "EqNode", "FalsyNode", "LenNode"]
 LM_MIX = ["SlotLM", "DictLM"]
 
 
@@ -44,6 +44,8 @@ def make(clsname, idx, attrs, target):
         return node
     if clsname == "SymlinkNode":
         return SymlinkNode(target)
+    if clsname in ("EqNode", "FalsyNode", "LenNode"):
+        return getattr(nodes, clsname)("n%d" % idx, **attrs)
     raise ValueError(clsname)
 
 
@@ -189,6 +191,7 @@ SCHEMES = [
     ("nm-nodes", ["Node"], NM_METHODS),
     ("nm-mix", ["Node", "AnyNode", "PlainNM"], NM_METHODS),
     ("nm-links", ["Node", "SymlinkNode", "AnyNode", "SymlinkNode"], NM_METHODS),
+    ("nm-special", ["FalsyNode", "EqNode", "LenNode", "FalsyNode"], NM_METHODS),
     ("lm-slots", ["SlotLM"], LM_METHODS),
     ("lm-mix", ["DictLM", "SlotLM"], LM_METHODS),
 ]
@@ -264,4 +267,4 @@ def run_task(task, acc):
 
 
 def evidence_extra(total, tier):
-    return {"exhaustive_subdomain": "every shape <= %d nodes x 5 class schemes x every entry node x every applicable pickle protocol and deepcopy" % (5 if tier == "quick" else 6)}
+    return {"exhaustive_subdomain": "every shape <= %d nodes x 6 class schemes x every entry node x every applicable pickle protocol and deepcopy" % (5 if tier == "quick" else 6)}
